@@ -98,6 +98,20 @@ VARIANTS = [
     V( 'close-switches-dialect-under-lock', CLIENT, "dialect_bak,self.dialect= getattr( self, 'dialect', None ),device.Connection_Manager\n try:", "dialect_bak		= getattr( self, 'dialect', None )\n        try:\n            with self:\n                self.dialect	= device.Connection_Manager", fires=[ 'P-GATEWAY' ] ),
     V( 'session-release-only-on-some-ways-out', MAIN, "try:\n enip_process( addr, data=dotdict() )\n except Exception as exc:\n log.detail( \"%s session clean-up failed: %s\", name, exc )", "pass", fires=[ 'K-RELEASE' ], why='defect CZ' ),
     V( 'session-release-unprotected', MAIN, "try:\n enip_process( addr, data=dotdict() )\n except Exception as exc:\n log.detail( \"%s session clean-up failed: %s\", name, exc )", "enip_process( addr, data=dotdict() )", fires=[ 'K-RELEASE' ] ),
+    V( 'legacy-text-from-raw-field', PARSER, "ip_address = ip_address_data.IPADDR_network", "ip_address		= str( sin_addr )", fires=[ 'L-LEGACYTEXT' ] ),
+    V( 'bundle-reply-body-whatever-the-status', DEVICE, "if data.status in (0x00, 0x1E):\n offsets = []", "if cls.MULTIPLE_CTX in data:\n                offsets		= []", fires=[ 'L-STATUSDATA' ] ),
+    V( 'route-own-class-is-enough', DEVICE, "if ( ids[0] == self.class_id and ids[1] == self.instance_id ):\n return None", "if ids[0] == self.class_id:\n                return None", fires=[ 'D-ROUTE' ] ),
+    V( 'route-own-address-compared-as-pair', DEVICE, "if ( ids[0] == self.class_id and ids[1] == self.instance_id ):\n return None", "if tuple( ids[:2] ) == ( self.class_id, self.instance_id ):\n                return None", silent=[ 'D-ROUTE' ] ),
+    V( 'sequence-never-wraps', CLIENT, "sequence = self.seqs.get( connection, -1 ) + 1 # 0, 1, ...\n sequence %= 2**16", "sequence		= self.seqs.get( connection, -1 ) + 1 % 2**16", fires=[ 'K-SEQUENCE' ] ),
+    V( 'sequence-wrapped-in-one-expression', CLIENT, "sequence = self.seqs.get( connection, -1 ) + 1 # 0, 1, ...\n sequence %= 2**16", "sequence		= ( self.seqs.get( connection, -1 ) + 1 ) & 0xFFFF", silent=[ 'K-SEQUENCE' ] ),
+    V( 'validate-read-count-from-value', CLIENT, "cnt = request.read_tag.get( 'elements', 0 )", "cnt		= len( val )", fires=[ 'K-READVAL' ] ),
+    V( 'tnet-payload-minimum-length-off-by-one', TNETS, 'assert data, "Invalid data to parse, it\'s empty."', 'assert len( data ) > 3, "Invalid data to parse"', fires=[ 'T-TNETPAYLOAD' ] ),
+    V( 'tnet-payload-minimum-length', TNETS, 'assert data, "Invalid data to parse, it\'s empty."', 'assert len( data ) >= 3, "Invalid data to parse"', silent=[ 'T-TNETPAYLOAD' ] ),
+    V( 'poller-merge-with-one-limit-for-all', MODBUS, "rngs = set( merge( ( (a,1) for a in list( self._data )), reach=self.reach ))", "rngs		= set( merge( ( (a,1) for a in list( self._data )), reach=self.reach, limit=2000 ))", fires=[ 'M-POLLLIMIT' ] ),
+    V( 'poller-merge-with-the-smallest-limit', MODBUS, "rngs = set( merge( ( (a,1) for a in list( self._data )), reach=self.reach ))", "rngs		= set( merge( ( (a,1) for a in list( self._data )), reach=self.reach, limit=100 ))", silent=[ 'M-POLLLIMIT' ] ),
+    V( 'forward-open-keeps-proposed-id', DEVICE, "O_T.connection_ID = random.randint( 0, 2**32-1 )", "O_T.connection_ID	=  O_T.connection_ID or random.randint( 1, 2**32-1 )", fires=[ 'K-FORWARDS' ] ),
+    V( 'listener-asks-peer-name', NETWORK, "thrd = None\n try:\n thrd = thread_factory(", "thrd			= None\n        peer			= conn.getpeername()\n        try:\n            thrd		= thread_factory(", fires=[ 'E-CONTAIN' ] ),
+    V( 'unknown-attribute-preset-range-error', LOGIX, "assert attribute is not None, \\\n", "data.status = 0xFF\n            data.status_ext = {'size': 1, 'data': [ 0x2105 ]}\n            assert attribute is not None, \\\n", fires=[ 'S-STATUS' ] ),
     V( 'struct-index-not-scaled', AUTO, "beg = self.offset + self.index * siz", "beg			= self.offset + self.index", fires=[ 'T-TYPES' ] ),
     V( 'struct-class-format-compiled', AUTO, "self._struct = struct.Struct( self.struct_format )", "self._struct		= struct.Struct( type( self ).struct_format )", fires=[ 'T-TYPES' ] ),
     V( 'struct-unpack-at-offset', AUTO, "buf = data[ours+self._input][beg:end]\n val = self._struct.unpack_from( buffer=buf )[0]",
